@@ -1093,7 +1093,7 @@ static void enumerate(void)
 	const char *mode = mc_opt("mode", "c03");
 	const char *only = mc_opt("fam", "");
 	opt_mode = !strcmp(mode, "c04") ? 1 : !strcmp(mode, "c15") ? 2 : 0;
-	opt_reset_probes = opt_mode == 1;
+	opt_reset_probes = opt_mode >= 1; /* C04 and C15: a reset parser behaves like a new one (also after a nesting error at a small limit) */
 	if (opt_mode == 2)
 	{
 		fam_depth();
@@ -1124,7 +1124,7 @@ static int replay(const char *desc)
 	long f = 0, d = 32;
 	const char *mode = mc_opt("mode", "c03");
 	opt_mode = !strcmp(mode, "c04") ? 1 : !strcmp(mode, "c15") ? 2 : 0;
-	opt_reset_probes = opt_mode == 1;
+	opt_reset_probes = opt_mode >= 1; /* C04 and C15: a reset parser behaves like a new one (also after a nesting error at a small limit) */
 	mc_desc_int(desc, "flags", &f);
 	mc_desc_int(desc, "depth", &d);
 	if (!mc_desc_hex(desc, "text", T, sizeof T - 1, &TL))
